@@ -522,11 +522,31 @@ def _hashed_node_value(n: ast.AST) -> Optional[ast.Attribute]:
 
 
 def _loop_over_keys(f: Fn, n: ast.AST, table: str, key: str) -> bool:
+    """the key runs over keys of the table: a loop or comprehension over the table (its keys(), items(), a list of it), or over a
+    list that was itself drawn from the table's keys by a filtering comprehension (directly or through a local bound once)"""
+    def from_table(it, depth=0) -> bool:
+        if norm(it) in ('%s.items()' % table, '%s.keys()' % table, table, 'list(%s)' % table, 'list(%s.keys())' % table, 'tuple(%s)' % table):
+            return True
+        if depth > 3:
+            return False
+        if isinstance(it, (ast.ListComp, ast.GeneratorExp)) and len(it.generators) == 1 and isinstance(it.elt, ast.Name) \
+                and isinstance(it.generators[0].target, ast.Name) and it.elt.id == it.generators[0].target.id:
+            return from_table(it.generators[0].iter, depth + 1)
+        if isinstance(it, ast.Name) and it.id not in f.fi.params:
+            srcs = assigned_from(f, it.id)
+            return len(srcs) == 1 and it.id not in G.mutated_names(f.node) and from_table(srcs[0], depth + 1)
+        return False
     for lo in enclosing_loops(n, f.node):
-        if isinstance(lo, ast.For) and norm(lo.iter) in ('%s.items()' % table, '%s.keys()' % table, table):
+        if isinstance(lo, ast.For) and from_table(lo.iter):
             t = lo.target.elts[0] if isinstance(lo.target, ast.Tuple) else lo.target
             if norm(t) == key:
                 return True
+    for a in S._ancestors_list(n):
+        if isinstance(a, (ast.ListComp, ast.GeneratorExp, ast.DictComp, ast.SetComp)):
+            for g in a.generators:
+                t = g.target.elts[0] if isinstance(g.target, ast.Tuple) and norm(g.iter).endswith('.items()') else g.target
+                if norm(t) == key and from_table(g.iter):
+                    return True
     return False
 
 
